@@ -754,6 +754,12 @@ func addReflectStubs(m map[string]stubFn) {
 			if _, _, ok2 := intWidth(to); ok2 {
 				return &RValue{t: to, v: in.convert(fr, r.t, to, v)}
 			}
+			if isFloat(to) {
+				return &RValue{t: to, v: in.convert(fr, r.t, to, v)}
+			}
+		}
+		if isFloat(r.t) && !isFloat(to) && !isIfaceType(to) {
+			return &RValue{t: to, v: in.convert(fr, r.t, to, v)}
 		}
 		return &RValue{t: to, v: v}
 	}
